@@ -21,7 +21,7 @@ M = [
  ('special-no-release_all_action_keys', 'src/key_transforms.rs', '      // First release action keys\n      res.events.append(&mut release_all_action_keys(state));', '      // First release action keys\n      if state.active_mappings.len() < 2 { res.events.append(&mut release_all_action_keys(state)); }', ['C07']),
  ('absorbed-hidden-only-from-last-trigger', 'src/key_transforms.rs', '      .filter(|(_, trigger)| *trigger != k)', '      .filter(|(_, trigger)| *trigger != k && Some(*trigger) == state.mapped_absorbed_keys.last().map(|x| x.1))', ['C08']),
  ('absorbed-key-never-counts-again', 'src/key_transforms.rs', '  state.mapped_absorbed_keys.retain(|(k2, _)| *k2 != k);\n  state.repeating_trigger = None;', '  state.repeating_trigger = None;', ['C08', 'C06']),
- ('ignored-event-returns-disabled', 'src/key_transforms.rs', '        else {\n          StepResult {\n            events: vec![],\n            repeat: ResultingRepeat::NoChange\n          }\n        }\n      },\n      Released(k) => {', '        else {\n          StepResult {\n            events: vec![],\n            repeat: ResultingRepeat::Disabled\n          }\n        }\n      },\n      Released(k) => {', ['C09', 'C11']),
+ ('ignored-event-returns-disabled', 'src/key_transforms.rs', '        else {\n          StepResult {\n            events: vec![],\n            repeat: ResultingRepeat::NoChange\n          }\n        }\n      },\n      Released(k) => {', '        else {\n          StepResult {\n            events: vec![],\n            repeat: ResultingRepeat::Disabled\n          }\n        }\n      },\n      Released(k) => {', ['C09']),
  ('special-delay-is-interval', 'src/key_transforms.rs', '        delay_ms: *delay_ms,\n        interval_ms: *interval_ms\n      };\n      \n      // Save the key', '        delay_ms: *interval_ms,\n        interval_ms: *interval_ms\n      };\n      \n      // Save the key', ['C09']),
  ('double-release-reintroduced', 'src/key_transforms.rs', ' && !keys_to_release.contains(mod_key)', '', ['C19']),
  ('loop-break-after-first-event', 'src/remapping_loop.rs', '                          ResultingRepeat::NoChange => working_repeat\n                        };\n                      }', '                          ResultingRepeat::NoChange => working_repeat\n                        };\n                        if evs_out_len > 2 { break; }\n                      }', ['C10']),
